@@ -41,17 +41,17 @@ def _serial_pairs(bits, rng, n):
 class C17(Check):
     prop = "C17"
     props_file = "Props/C17.v"
-    models = ["SctpRecv", "SctpSend", "RtpRecv", "RtpSend"]
+    models = ["SctpRecv", "SctpSend", "RtpRecv", "RtpSend", "Chan"]
     quick_cases = 700
     thorough_cases = 15000
     case_timeout = 60.0
     level_note = ("Serial-arithmetic laws are proved about Gen/Utils.v, which is regenerated from utils.py on every "
                   "run (validated by value inside Coq). Shift-invariance theorems are about Model/SctpRecv.v, "
-                  "Model/SctpTx.v, Model/SctpSend.v, Model/RtpRecv.v (NackGenerator), Model/RtpSend.v (history), Model/Jitter.v and Model/Stats.v (each tied to the code by its own "
-                  "correspondence; the receiver, _send, NackGenerator and RTP sender ties are re-run here at the wrap points). Reconfiguration "
-                  "sequence numbers are covered by the metamorphic re-run of the "
-                  "implementation only.")
-    rule = ("k=0: receiver event lists with cumulative TSN within 300 of 2^32 / 2^31 / 0; k=3: metamorphic pairs "
+                  "Model/SctpTx.v, Model/SctpSend.v, Model/RtpRecv.v (NackGenerator), Model/RtpSend.v (history), Model/Chan.v (RE-CONFIG numbering), Model/Jitter.v and Model/Stats.v (each tied to the code by its own "
+                  "correspondence; the receiver, _send, NackGenerator, RTP sender and data-channel layer ties are re-run here at the wrap points); "
+                  "the metamorphic re-run of the implementation is an additional oracle.")
+    rule = ("k=0: receiver event lists with cumulative TSN within 300 of 2^32 / 2^31 / 0; k=2 / 4 / 5 / 6: _send, "
+            "NackGenerator, RTP sender and data-channel layer correspondences with counters starting at the wrap; k=3: metamorphic pairs "
             "(schedule at small origin, same schedule shifted to the wrap) for SCTP endpoints, receive path, "
             "JitterBuffer, NackGenerator, StreamStatistics; distinct by (case, outputs); non-trivial = the shifted "
             "run actually crosses a wrap point")
@@ -87,22 +87,39 @@ class C17(Check):
     # ---------------------------------------------------------------- cases
     def gen_case(self, rng, i):
         r = rng.random()
-        if r < 0.03:
+        if r < 0.04:
+            # theorem 7 is about Model/Chan.v: its tie to a real RTCSctpTransport (C13's data-channel layer cases) with
+            # the RE-CONFIG request numbering starting within 3 of the 32-bit wrap
+            from harness.props import c13 as C13mod
+            c = C13mod.gen_layer_case(rng)
+            delta = (2 ** 32 - rng.randrange(1, 4) - c["req"]) & 0xFFFFFFFF
+            c["req"] = (c["req"] + delta) & 0xFFFFFFFF
+            c["ins"] = [[10, (i[1] + delta) & 0xFFFFFFFF] if i[0] == 10 else i for i in c["ins"]]
+            # a tail that certainly numbers requests across the wrap: channels are created, get ids, are closed, the
+            # RE-CONFIG task runs, every request number that may be pending is answered
+            nch = sum(1 for i in c["ins"] if i[0] == 0)
+            tail = [[6]]
+            for j in range(4):
+                tail += [[0, 0, [], 1, [], [], [99], []], [4, [0, 0, 0, 0]], [2, nch + j, 0], [5]]
+                tail += [[10, (c["req"] + d) & 0xFFFFFFFF] for d in range(0, 6)]
+            c["ins"] = c["ins"][:25] + tail
+            return {"k": 6, "c13": c}
+        if r < 0.07:
             # theorem 6 is about Model/RtpSend.v: its tie to a real RTCRtpSender (C11's sender cases start their sequence
             # counters within 140 of the wrap most of the time)
             from harness.props.c11 import C11
             return {"k": 5, "c11": C11().gen_sender(rng)}
-        if r < 0.07:
+        if r < 0.11:
             # theorem 5 is about the NackGenerator of Model/RtpRecv.v: its tie, at sequence numbers around the wrap
             from harness.props.c11 import C11
             return {"k": 4, "seqs": C11().gen_nack(rng)[1]}
-        if r < 0.13:
+        if r < 0.17:
             # the sender's SSN counters at origins around the 16-bit wrap, TSNs around the 32-bit wrap (theorem 2d is
             # about Model/SctpSend.v: this is its tie to RTCSctpTransport._send)
             c = C01mod.C01.gen_send_case(rng, origins=[65535, 65534, 65533, 65530, 32767, 32768, 0])
             c["tsn0"] = (rng.choice(WRAPS32) - rng.randrange(0, 6)) & 0xFFFFFFFF
             return c
-        if r < 0.35:
+        if r < 0.38:
             base = rng.choice(WRAPS32) - rng.randrange(0, 6) & 0xFFFFFFFF
             chunks, sent = C01mod.make_sender_chunks(rng, base)
             arr = [rng.randrange(len(chunks)) for _ in range(rng.randrange(1, 3 * len(chunks) + 2))]
@@ -180,7 +197,7 @@ class C17(Check):
                 "tdelta": (rng.choice(WRAPS32) - 100000 - rng.randrange(0, 5) * 160) & 0xFFFFFFFF}
 
     def model_name(self, case):
-        return {0: "SctpRecv", 2: "SctpSend", 4: "RtpRecv", 5: "RtpSend"}.get(case["k"])
+        return {0: "SctpRecv", 2: "SctpSend", 4: "RtpRecv", 5: "RtpSend", 6: "Chan"}.get(case["k"])
 
     def model_canon(self, case, out):
         if case["k"] == 5:
@@ -189,6 +206,9 @@ class C17(Check):
         return out
 
     def encode(self, case):
+        if case["k"] == 6:
+            from harness.props.c13 import C13
+            return C13().encode(case["c13"])
         if case["k"] == 5:
             from harness.props.c11 import C11
             return C11().encode(case["c11"])
@@ -199,6 +219,9 @@ class C17(Check):
         return [case["base"], case["events"]]
 
     def describe_case(self, case):
+        if case["k"] == 6:
+            from harness.props.c13 import C13
+            return C13().describe_case(case["c13"])
         if case["k"] == 5:
             return {"k": 5, "cfg": case["c11"][1], "ops": len(case["c11"][2])}
         if case["k"] == 4:
@@ -212,6 +235,9 @@ class C17(Check):
 
     # ---------------------------------------------------------------- implementation
     def impl_run(self, case):
+        if case["k"] == 6:
+            from harness.props.c13 import C13
+            return C13().impl_run(case["c13"])
         if case["k"] == 5:
             from harness.props.c11 import C11
             return C11().impl_run(case["c11"])
@@ -254,6 +280,9 @@ class C17(Check):
 
     # ---------------------------------------------------------------- oracle
     def oracle(self, case, out):
+        if case["k"] == 6:
+            from harness.props.c13 import C13
+            return C13().oracle(case["c13"], out)
         if case["k"] == 5:
             from harness.props.c11 import C11
             return C11().oracle(case["c11"], out)
@@ -308,6 +337,10 @@ class C17(Check):
         return None
 
     def nontrivial(self, case, out):
+        if case["k"] == 6:
+            # a RE-CONFIG request was numbered across the wrap
+            reqs = [e[1] for evs, _ in out for e in evs if e and e[0] == 6]
+            return any(q >= 2 ** 32 - 4 for q in reqs) and any(q < 4 for q in reqs)
         if case["k"] == 5:
             return True
         if case["k"] == 4:
@@ -325,7 +358,9 @@ class C17(Check):
     def distribution(self, cases, outs):
         d = {"recv_corr": 0, "crossing_wrap": 0}
         for c, o in zip(cases, outs):
-            if c["k"] == 5:
+            if c["k"] == 6:
+                d["chan_corr"] = d.get("chan_corr", 0) + 1
+            elif c["k"] == 5:
                 d["rtp_sender_corr"] = d.get("rtp_sender_corr", 0) + 1
             elif c["k"] == 4:
                 d["nack_corr"] = d.get("nack_corr", 0) + 1
